@@ -362,7 +362,10 @@ AddStreamValue(ctx, name, val, gen) ==
     LET i == FindDesc(ctx, name)
         st0 == IF i = 0 THEN EmptyStream ELSE ctx.sm[name][i].st
         st1 == StreamAdd(st0, val, gen)
-        c1 == IF i = 0 THEN [ctx EXCEPT !.sm = WithName(@, name, <<[scope |-> GlobalScope, st |-> st1]>>)]
+        \* no descriptor fits the position: a global stream is created below the restricted ones that enclosing `new`s
+        \* have opened (the value comes from outside their spans, e.g. from a fold body re-entered through `next`)
+        older == IF name \in DOMAIN ctx.sm THEN ctx.sm[name] ELSE <<>>
+        c1 == IF i = 0 THEN [ctx EXCEPT !.sm = WithName(@, name, <<[scope |-> GlobalScope, st |-> st1]>> \o older)]
               ELSE [ctx EXCEPT !.sm[name][i].st = st1]
     IN IF StreamSize(st1) >= STREAM_MAX_SIZE THEN [c1 EXCEPT !.err = Uncatch(20013)] ELSE c1
 
@@ -424,6 +427,20 @@ LensText(lens) == IF Len(lens) = 1 /\ lens[1].lk = "len" THEN ".length" ELSE ".$
 
 PlainLens(lens) == \A i \in 1..Len(lens) : lens[i].lk \in {"field", "idx"}
 
+DigitOf(s) == CASE s = "0" -> 0 [] s = "1" -> 1 [] s = "2" -> 2 [] s = "3" -> 3 [] s = "4" -> 4 [] s = "5" -> 5
+                 [] s = "6" -> 6 [] s = "7" -> 7 [] s = "8" -> 8 [] s = "9" -> 9 [] OTHER -> -1
+RECURSIVE SubstSteps(_, _, _, _)
+SubstSteps(ctx, lens, i, acc) ==
+    IF i > Len(lens) THEN [r |-> "ok", code |-> 0, steps |-> acc]
+    ELSE IF lens[i].lk # "var" THEN SubstSteps(ctx, lens, i + 1, Append(acc, lens[i]))
+    ELSE LET g == GetValue(ctx, lens[i].x) IN
+         IF g.r = "join" THEN [r |-> "join", code |-> 0, steps |-> acc]
+         ELSE IF g.r # "ok" THEN [r |-> "err", code |-> g.code, steps |-> acc]
+         ELSE IF IsStr(g.val.v) THEN SubstSteps(ctx, lens, i + 1, Append(acc, [lk |-> "field", name |-> g.val.v.s]))
+         ELSE IF IsNum(g.val.v) /\ DigitOf(g.val.v.s) >= 0 THEN SubstSteps(ctx, lens, i + 1, Append(acc, [lk |-> "idx", ix |-> DigitOf(g.val.v.s)]))
+         ELSE IF IsNum(g.val.v) THEN [r |-> "err", code |-> -2, steps |-> acc]
+         ELSE [r |-> "err", code |-> E_Lambda, steps |-> acc]
+
 \* apply_lambda_with_tetraplets on a scalar
 ApplyLens(ctx, val, lens) ==
     IF val.cm THEN
@@ -447,8 +464,14 @@ ApplyLens(ctx, val, lens) ==
         (IF IsArr(val.v) THEN [r |-> "ok", code |-> 0,
                                val |-> [Val(Num(Len(val.v.q)), [p |-> "", s |-> "", f |-> "", lens |-> ".length"]) EXCEPT !.prov = val.prov]]
          ELSE RErr(E_LengthOfNonArray))
-    ELSE IF ~PlainLens(lens) THEN RErr(-2)     \* by-scalar accessors: not in stage 1
-    ELSE LET nv == Nav(val.v, lens) IN
+    ELSE
+    \* accessors taken from scalars (lambda_applier: FieldAccessByScalar): the scalar must be known (else the operand
+    \* waits) and hold a string (a field name) or a non-negative integer (an index); the tetraplet keeps the accessor
+    \* as written, with the scalar's name
+    LET sub == SubstSteps(ctx, lens, 1, <<>>) IN
+    IF sub.r = "join" THEN RJoin
+    ELSE IF sub.r = "err" THEN RErr(sub.code)
+    ELSE LET nv == Nav(val.v, sub.steps) IN
          IF nv.ok THEN [r |-> "ok", code |-> 0, val |-> [Val(nv.v, [val.tp EXCEPT !.lens = @ \o LensText(lens)]) EXCEPT !.prov = val.prov]]
          ELSE RErr(E_Lambda)
 
@@ -476,7 +499,7 @@ Sigil(n) == SubSeq(n, 1, 1)
 Prefix2(n) == IF Len(n) >= 2 THEN SubSeq(n, 1, 2) ELSE n
 Supported(o) ==
     \/ o.o \in {"lit", "peer", "init", "empty", "ts", "ttl"}
-    \/ (o.o = "var" /\ Sigil(o.n) \notin {"#", "$", "%"} /\ \A i \in 1..Len(o.lens) : o.lens[i].lk \in {"field", "idx", "len"})
+    \/ (o.o = "var" /\ Sigil(o.n) \notin {"#", "$", "%"} /\ \A i \in 1..Len(o.lens) : o.lens[i].lk \in {"field", "idx", "len", "var"})
     \/ (o.o = "var" /\ Prefix2(o.n) = "#%" /\ (Len(o.lens) = 0 \/ (Len(o.lens) = 1 /\ o.lens[1].lk \in {"field", "idx"})))
     \/ (o.o = "var" /\ Sigil(o.n) = "#" /\ Prefix2(o.n) # "#%"
             /\ (Len(o.lens) = 0 \/ (o.lens[1].lk = "idx" /\ \A i \in 1..Len(o.lens) : o.lens[i].lk \in {"field", "idx"})))
@@ -498,6 +521,8 @@ InitCtx(me, init, pt, ct, lcid, results) ==
       ok |-> TRUE, nx |-> {}, rq |-> <<>>, lcid |-> lcid, res |-> results,
       sm |-> <<>>, lex |-> {}, n2p |-> <<>>, n2c |-> <<>>, ff |-> <<>>, fid |-> 0,
       err |-> NoErr, unsup |-> FALSE, kf1 |-> FALSE,
+      \* C13 on the design: stream folds that ended in this run without having visited every value of their stream
+      c13 |-> <<>>,
       \* %last_error% and :error: descriptors: error code (as a value), tetraplet, "can be set" flag
       le |-> [codev |-> Num(0), tp |-> [p |-> init, s |-> "", f |-> "", lens |-> ""], set |-> TRUE],
       er |-> [codev |-> Num(0), tp |-> [p |-> init, s |-> "", f |-> "", lens |-> ""], set |-> TRUE, orig |-> NoErr] ]
@@ -944,6 +969,12 @@ FoldBatches(i, ctx, fid, gens, cursor, anyOk) ==
                        c2 == SetStream(r.ctx, i.it.n, AddEmptyNewGen(st2))
                    IN FoldBatches(i, c2, fid, nextGens, cursor2, r.anyOk)
 
+RECURSIVE AlwaysNext(_, _)
+AlwaysNext(b, x) ==
+    CASE b.op = "next" -> b.x = x
+      [] b.op = "par" -> AlwaysNext(b.l, x) \/ AlwaysNext(b.r, x)
+      [] b.op = "seq" -> AlwaysNext(b.l, x)
+      [] OTHER -> FALSE
 ExecFoldStream(i, ctx) ==
     LET g == GetStream(ctx, i.it.n) IN
     IF ~g.found THEN Incomplete(ctx)
@@ -957,7 +988,20 @@ ExecFoldStream(i, ctx) ==
         c1 == IF Len(gens) > 0 THEN SetStream(c0, i.it.n, AddEmptyNewGen(g.st)) ELSE c0
         r == FoldBatches(i, c1, fid, gens, cursor, FALSE)
     IN IF Failed(r.ctx) THEN r.ctx
-       ELSE FsmFoldEnd([r.ctx EXCEPT !.ok = r.anyOk], fid)
+       ELSE
+       \* C13: a fold whose body reaches `next` whatever happens has, when it ends, one iteration for every value its
+       \* stream holds at that moment (values merged from data, values appended before and during the fold), each once
+       LET fin == [r.ctx EXCEPT !.ok = r.anyOk]
+           g2 == GetStream(fin, i.it.n)
+           vals == IF g2.found THEN StreamIter(g2.st) ELSE <<>>
+           vp == {vals[k].pos : k \in 1..Len(vals)}
+           lore == fin.ff[fid].res
+           lp == {lore[k].vp : k \in 1..Len(lore)}
+           ok == ~AlwaysNext(i.i, i.x) \/ (vp = lp /\ Len(lore) = Cardinality(lp))
+           \* where the missed values sit: restored from this peer's previous data, or elsewhere (incoming data, new)
+           prevPos == IF g2.found THEN {Flatten(g2.st.prev)[k].pos : k \in 1..Len(Flatten(g2.st.prev))} ELSE {}
+       IN FsmFoldEnd(IF ok THEN fin
+                     ELSE [fin EXCEPT !.c13 = Append(@, [s |-> i.it.n, values |-> vp, visited |-> lp, fromPrev |-> (vp \ lp) \subseteq prevPos])], fid)
 
 ExecFold(i, ctx) ==
     IF i.it.o = "var" /\ Sigil(i.it.n) \in {"$", "%"} THEN ExecFoldStream(i, ctx)
@@ -1047,13 +1091,13 @@ Interp(script, me, init, prev, cur, results) ==
                    IF Failed(cc) THEN cc ELSE [cc EXCEPT !.err = cx.err]
         sigs == SortedNames(SetOf(prev.sigs) \cup SetOf(cur.sigs) \cup {me})
         newData == [trace |-> c1.out, lcid |-> c1.lcid, sigs |-> sigs]
-    IN  IF c1.unsup THEN [unsup |-> TRUE, kf1 |-> FALSE, code |-> -2, data |-> prev, next |-> <<>>, reqs |-> <<>>]
+    IN  IF c1.unsup THEN [unsup |-> TRUE, kf1 |-> FALSE, c13 |-> <<>>, code |-> -2, data |-> prev, next |-> <<>>, reqs |-> <<>>]
         ELSE IF c1.err.cls = "uncatch" THEN
-            [unsup |-> FALSE, kf1 |-> c1.kf1, code |-> c1.err.code, data |-> prev, next |-> <<>>, reqs |-> <<>>]
+            [unsup |-> FALSE, kf1 |-> c1.kf1, c13 |-> c1.c13, code |-> c1.err.code, data |-> prev, next |-> <<>>, reqs |-> <<>>]
         ELSE IF c1.err.cls = "catch" THEN
-            [unsup |-> FALSE, kf1 |-> c1.kf1, code |-> c1.err.code, data |-> newData, next |-> SortedNames(c1.nx), reqs |-> c1.rq]
+            [unsup |-> FALSE, kf1 |-> c1.kf1, c13 |-> c1.c13, code |-> c1.err.code, data |-> newData, next |-> SortedNames(c1.nx), reqs |-> c1.rq]
         ELSE
-            [unsup |-> FALSE, kf1 |-> c1.kf1, code |-> IF c1.res # {} THEN 30000 ELSE 0, data |-> newData,
+            [unsup |-> FALSE, kf1 |-> c1.kf1, c13 |-> c1.c13, code |-> IF c1.res # {} THEN 30000 ELSE 0, data |-> newData,
              next |-> SortedNames(c1.nx), reqs |-> c1.rq]
 
 =============================================================================
